@@ -79,14 +79,19 @@ def _run_bounded(arg):
     t0 = time.time()
     try:
         mod = importlib.import_module(modname)
-        b = mod.BOUNDED[idx]
+        b = _bounded_of(mod, tier)[idx]
         r = b.run(tier, seed)
-        r.update(name=b.name, function=b.function, bound=b.bound(tier) if callable(b.bound) else b.bound)
+        r.update(name=b.name, function=b.function, bound=b.bound(tier) if callable(b.bound) else b.bound, kind=getattr(b, "kind", "bounded"))
         r.setdefault("seconds", time.time() - t0)
         return r
     except Exception:
         return dict(name=f"{modname}.BOUNDED[{idx}]", function="?", bound="?", cases=0, failures=[],
                     error="checker crash: " + traceback.format_exc(), seconds=time.time() - t0)
+
+
+def _bounded_of(mod, tier):
+    """the bounded stand-ins of a property; the thorough tier adds the encoder cross-checks (guards of the verifier)"""
+    return list(getattr(mod, "BOUNDED", [])) + (list(getattr(mod, "THOROUGH_BOUNDED", [])) if tier == "thorough" else [])
 
 
 def load_known():
@@ -103,7 +108,7 @@ def run_property(pid, tier="quick", seed=0, jobs=None):
     sys.path.insert(0, VERIF)
     mod = importlib.import_module(modname)
     units = getattr(mod, "UNITS", [])
-    bounded = getattr(mod, "BOUNDED", [])
+    bounded = _bounded_of(mod, tier)
     jobs = jobs or min(16, max(1, (os.cpu_count() or 4)))
     ctx = mp.get_context("fork")
     unit_results, bounded_results = [], []
@@ -118,6 +123,12 @@ def run_property(pid, tier="quick", seed=0, jobs=None):
     for b in bounded_results:
         if b.get("error"):
             errors.append(f"{b['name']}: {b['error']}")
+        if b.get("kind") == "encoder-crosscheck" and b.get("failures"):
+            # the encoder disagrees with CPython: nothing this run proves can be believed - a checker error, not a violation
+            for fl in b["failures"][:3]:
+                errors.append(f"{b['name']}: encoder disagrees with CPython on {fl.get('input')}: {fl.get('detail')}")
+            b["xcheck_failures"] = b.pop("failures")
+            b["failures"] = []
 
     # aggregate per obligation id
     by_id = {}
@@ -283,7 +294,10 @@ def run_property(pid, tier="quick", seed=0, jobs=None):
         refuted=sorted(refuted_ids), unknown=sorted(unknown_ids),
         bounded=[dict(name=b["name"], function=b["function"], bound=b["bound"], cases=b.get("cases", 0),
                       failures=len(b.get("failures", [])), seconds=round(b.get("seconds", 0), 2),
-                      label="bounded - never counted as proved") for b in bounded_results] + ([cross] if cross else []),
+                      label=("guard of the verifier (encoder / trusted theory vs CPython) - not evidence for the property; a disagreement is a checker error"
+                             if b.get("kind") == "encoder-crosscheck" else "bounded - never counted as proved"),
+                      **({"determined": b.get("determined"), "disagreements": len(b.get("xcheck_failures", []))} if b.get("kind") == "encoder-crosscheck" else {}))
+                 for b in bounded_results] + ([cross] if cross else []),
         samples=samples,
         tree_sha=_tree_sha(),
         known_findings_reproduced=known_lines,
